@@ -21,7 +21,7 @@ PROPS = {
                  "reader callbacks and input ranges (sim reader: full, short, nothing, throwing)",
                  "the file behind std::istream for read_chars (sim::StreamBuf: chunked, failing refills)"],
         "technique": "deterministic simulation with fault injection: seeded operation histories against a std::vector reference model, injected allocation failures and short/failing readers, allocation ledger, ASan/UBSan monitors, single-fault enumeration, minimised replay",
-        "level_text": "Seeded search over operation histories (up to 60 operations, 3 vectors + 2 buffers, three element types) with allocation failures and failing/short readers attached to individual operations; every step is compared with std::vector (contents, size, returned iterator offsets, capacity >= size), with an exact allocation ledger (leak, double free, size mismatch, capacity == block size) and ASan/UBSan. Sampling, not proof: the evidence states runs, faults fired and rare paths reached.",
+        "level_text": "Seeded search over operation histories (up to 60 operations, 3 vectors + 2 buffers, three element types; source ranges from forward and input iterators, aliasing the container, and of another element type that converts to T) with allocation failures and failing/short readers attached to individual operations; every step is compared with std::vector (contents, size, returned iterator offsets, capacity >= size), with an exact allocation ledger (leak, double free, size mismatch, capacity == block size) and ASan/UBSan. Sampling, not proof: the evidence states runs, faults fired and rare paths reached.",
         "level_note": "Stubs: allocator (malloc + ledger + injected bad_alloc), reader callbacks/input ranges, the stream behind io::read_chars. Trusted: std::vector as the model, ASan/UBSan, the harness. Moved-from objects are only required to be valid.",
         "assumptions": ["moved-from objects are only required to be valid (their contents are read back, not predicted)",
                         "ranges inserted into a vector never alias the same vector (undefined for std::vector too)",
@@ -43,7 +43,7 @@ PROPS = {
         "stub": ["global operator new/delete (tagging + injected bad_alloc)",
                  "element type sim::Val (unique id, heap payload, copies fail on the simulator's order)"],
         "technique": "deterministic simulation with fault injection: seeded operation histories over a forest against a recursive reference model, injected allocation and element-copy failures, link invariant after every step, heap/value leak ledger, ASan/UBSan monitors, single-fault enumeration, minimised replay",
-        "level_text": "Seeded search over operation histories (up to 40 operations, forest of up to 4 trees, operands among all live nodes) with allocation and element-copy failures attached to individual operations; after every step the link invariant (every child's parent() is the node listing it, roots have none) is checked on the real objects, shape/values/traversals (pre_order, to_root, depth, level, child_position, map, ==) are compared with a recursive model, ASan watches for stale links, a ledger for leaks. Sampling, not proof.",
+        "level_text": "Seeded search over operation histories (up to 40 operations, forest of up to 4 trees, operands among all live nodes) with allocation, element-copy and element-swap failures attached to individual operations; after every step the link invariant (every child's parent() is the node listing it, roots have none) is checked on the real objects, shape/values/traversals (pre_order, to_root, depth, level, child_position, map, ==) are compared with a recursive model, ASan watches for stale links, a ledger for leaks. Sampling, not proof.",
         "level_note": "Stubs: global operator new/delete (tagging + injected bad_alloc), element type sim::Val. Trusted: the recursive model, ASan/UBSan, the harness. Excluded by precondition: assignment/swap between a node and its own ancestor or descendant.",
         "assumptions": ["assignment and swap between a node and its own ancestor/descendant are excluded (no meaning promised)",
                         "moved-from roots are only required to be valid and childless; they are destroyed right away",
@@ -75,7 +75,7 @@ PROPS = {
             "enum_every": {"quick": 100, "thorough": 25},
         }],
         "technique": "deterministic simulation with fault injection: seeded read/save/restore/parse histories over a simulated stream buffer (chunked refills, injected read errors, failing seeks, truncation) against a text+index model with line/column recomputed from scratch; differential run of every grammar against a real stringbuf; minimised replay",
-        "level_text": "Seeded search over texts (newline-heavy, up to 25/40 characters, char and wchar_t) and histories (up to 40) of get_char / get_position / set_position(saved) / character-level parsers / 9 compound grammars on parse::detail::stream, the stream buffer being simulated (chunk sizes 1,2,3,7,whole; with and without put-back support; refills that throw; seeks/tells that fail; truncation at an arbitrary byte) or real (stringbuf, filebuf). Every returned character, offset, line and column is compared with a model that recomputes them from scratch; error texts of literal/char_set must carry the location immediately after the offending character; after a read error no call may yield a character and a grammar may only fail or yield what the text before the error yields; after a failed seek only failure or the true next character is accepted. Sampling, not proof.",
+        "level_text": "Seeded search over texts (newline-heavy, up to 25/40 characters, char and wchar_t) and histories (up to 40) of get_char / get_position / set_position(saved) / character-level parsers / 9 compound grammars on parse::detail::stream, the stream buffer being simulated (chunk sizes 1,2,3,7,whole; with and without put-back support; refills that throw; seeks/tells that fail; truncation at an arbitrary byte) or real (stringbuf, filebuf, and a wide filebuf over a UTF-8 file whose positions count bytes). Every returned character, offset, line and column is compared with a model that recomputes them from scratch; error texts of literal/char_set must carry the location immediately after the offending character; after a read error no call may yield a character and a grammar may only fail or yield what the text before the error yields; after a failed seek only failure or the true next character is accepted. Sampling, not proof.",
         "level_note": "Stubs: the streambuf (sim::StreamBuf) in 70% of the runs; real std::basic_stringbuf / std::basic_filebuf in the rest (no faults there). Trusted: the text+index model, a real stringbuf as the reference for grammar results, ASan/UBSan, the harness.",
         "rule": "One run = one text plus one history of stream operations executed on one parse stream; about a third of the runs inject read errors / seek failures / truncation. Non-trivial = at least 3 effective operations.",
         "real": REAL_COMMON + ["parse::detail::stream, get_char/get_position/set_position, basic_literal/char_set/char/string, all operators, phrase_parse", "std::basic_istream, std::basic_stringbuf, std::basic_filebuf"],
@@ -91,7 +91,7 @@ PROPS = {
             "enum_every": {"quick": 50, "thorough": 20},
         }],
         "technique": "deterministic simulation with fault injection: seeded write-then-read scenarios over simulated files (torn/short writes, truncation at an arbitrary byte, chunked and failing reads) and over a simulated codecvt facet (narrowed output windows, injected errors, torn encodings); oracle 'value read == value written, or failure, never another value'; byte layout on the simulated disk; minimised replay",
-        "level_text": "Covers the stream- and facet-facing subset of C15: io::write -> io::read for ten arithmetic types and both byte orders (including the byte layout on the simulated disk), write_chars -> read_chars, operator<< / operator>> of math::vector, math::dim and an enum over char and wchar_t streams, narrow_locale / widen_locale through a simulated codecvt facet layered on the real C.utf8 facet (strings of 0-40 characters, one in sixteen 41-2048). Faults: the writer's file accepts only n bytes (torn write), the reader sees only the first n bytes (lost tail), refills throw, the facet offers narrow output windows (legal partial results) or reports an error, encodings are torn inside a character. Oracle: every acknowledged value lying wholly in the file reads back exactly; a torn or missing value yields failure, never a value; no read succeeds after a failed one; conversions return the complete result or report failure (a strict prefix is 'silent truncation'). endianness::swap twice, output_to_string -> extract_from_string and enum to_string -> from_string ride along in fault-free runs only. NOT covered: the exhaustive sweep over all Unicode scalar values and all 8/16-bit integers (pure input enumeration, no seam). Sampling, not proof.",
+        "level_text": "Covers the stream- and facet-facing subset of C15: io::write -> io::read for ten arithmetic types and both byte orders (including the byte layout on the simulated disk), write_chars -> read_chars, operator<< / operator>> of math::vector, math::dim and an enum over char and wchar_t streams, narrow_locale / widen_locale through a simulated codecvt facet layered on the real C.utf8 facet (strings of 0-40 characters, one in sixteen 41-2048), and in fault-free conversions also narrow / widen / from_std_wstring / to_std_wstring with the environment's locale set to C.UTF-8. Faults: the writer's file accepts only n bytes (torn write), the reader sees only the first n bytes (lost tail), refills throw, the facet offers narrow output windows on its first calls (legal partial results), answers partial for ever from some offset, or reports an error, encodings are torn inside a character. Oracle: every acknowledged value lying wholly in the file reads back exactly; a torn or missing value yields failure, never a value; no read succeeds after a failed one; conversions return the complete result or report failure (a strict prefix is 'silent truncation'). endianness::swap twice, output_to_string -> extract_from_string and enum to_string -> from_string ride along in fault-free runs only. NOT covered: the exhaustive sweep over all Unicode scalar values and all 8/16-bit integers (pure input enumeration, no seam). Sampling, not proof.",
         "level_note": "Stubs: the files behind the streams (sim::StreamBuf), the codecvt facet wrapper (sim::Codecvt over the real C.utf8 facet). Trusted: an independent UTF-8 encoder as reference, the harness, ASan/UBSan. long double is excluded (padding bytes do not survive by-value passing).",
         "rule": "One run = 1-6 independent write-then-read scenarios (binary values, raw chars, text formats, codecvt conversions), half of the runs with injected faults. Every scenario counts as non-trivial; distinct = distinct plans.",
         "real": REAL_COMMON + ["io::read/write, endianness::convert/swap/reverse_mem, write_chars/read_chars, enum_::input/output/to_string/from_string, math vector/dim input/output, impl::codecvt via narrow_locale/widen_locale, output_to_string/extract_from_string", "the real C.utf8 codecvt facet underneath sim::Codecvt"],
@@ -107,13 +107,13 @@ PROPS = {
             "enum_every": {"quick": 50, "thorough": 20},
         }],
         "technique": "deterministic simulation with fault injection: seeded calls of the stream-, callback-, facet-, file-system- and allocator-facing part of the safe API with read errors, seek failures, truncation, facet partial/error results, injected errno values and allocation failures; totality oracle (only documented outcomes, bounded seam calls, no leak), ASan/UBSan monitors, per-run watchdog, minimised replay",
-        "level_text": "Covers ONLY the fault-facing subset of C01: io::stream_to_string, io::read_chars, io::read, io::extract, io::get/peek, io::expect, vector input, phrase_parse_stream (stream exceptions off and on), buffer::read_from_opt with failing/throwing readers, narrow_locale/widen_locale/from_std_wstring_locale/to_std_wstring_locale through a simulated codecvt facet (also with torn and garbage input), filesystem::file_size/create_directory/create_directories_recursive/make_directory_range/make_recursive_directory_range/open/open_exn with injected errno values on stat, lstat, mkdir, openat and fopen64 and on a populated scratch directory (missing file, directory, symlink loop, dangling link, ENOTDIR, ENAMETOOLONG), every call also with allocation failures. Oracle: the call returns, or leaves only through its documented channel (bad_alloc only when injected; runtime_error only from widen; fcppt::exception only from open_exn; the caller's own exception only from a throwing callback or a stream with exceptions() enabled); seam calls stay linear in the input (termination); nothing leaks; sanitizers silent. NOT covered: the pure-arithmetic, container, enum, cast, options and string-parsing anchors of C01 (no seam; a defect there is invisible to this check). Sampling, not proof.",
+        "level_text": "Covers ONLY the fault-facing subset of C01: io::stream_to_string, io::read_chars, io::read, io::extract, io::get/peek, io::expect, vector input, phrase_parse_stream (stream exceptions off and on; also parse::int_ / parse::uint with numbers at and around the limits of the target type: success must carry the exact value), buffer::read_from_opt with failing/throwing readers, narrow_locale/widen_locale/from_std_wstring_locale/to_std_wstring_locale through a simulated codecvt facet (also with torn and garbage input), filesystem::file_size/create_directory/create_directories_recursive/make_directory_range/make_recursive_directory_range/open/open_exn with injected errno values on stat, lstat, mkdir, openat and fopen64 and on a populated scratch directory (missing file, directory, symlink loop, dangling link, ENOTDIR, ENAMETOOLONG), every call also with allocation failures. Oracle: the call returns, or leaves only through its documented channel (bad_alloc only when injected; runtime_error only from widen; fcppt::exception only from open_exn; the caller's own exception only from a throwing callback or a stream with exceptions() enabled); seam calls stay linear in the input (termination); nothing leaks; sanitizers silent. NOT covered: the pure-arithmetic, container, enum, cast, options and string-parsing anchors of C01 (no seam; a defect there is invisible to this check). Sampling, not proof.",
         "level_note": "Stubs: stream buffers, codecvt facet wrapper, stat/lstat/mkdir/openat/fopen64 interposers, global operator new. Trusted: the harness's table of documented outcomes per call, ASan/UBSan, glibc underneath the interposers.",
         "rule": "One run = 1-6 calls of registered total functions, two thirds of the runs with one injected fault per call. Every call counts as non-trivial; distinct = distinct plans.",
         "real": REAL_COMMON + ["the io, parse-stream, buffer, codecvt and filesystem functions listed in the level text", "std::filesystem of libstdc++, the real C.utf8 facet, a real scratch directory"],
         "stub": ["stream buffers (sim::StreamBuf)", "codecvt facet wrapper (sim::Codecvt)", "stat/lstat/mkdir/openat/fopen64 (errno injection, pass-through otherwise)", "global operator new (injected bad_alloc, tagging)"],
         "assumptions": ["std::locale construction from the environment (string_conv_locale) is not exercised; LC_ALL=C is forced",
-                        "results are other properties' business: only totality is judged here (plus the obvious size/nothing check of file_size)"],
+                        "results are other properties' business: only totality is judged here (plus the obvious size/nothing check of file_size, and the exact value of a successfully parsed integer - a wrapped value is an unreported failure)"],
     },
     "C19": {
         "engines": [{
@@ -127,11 +127,11 @@ PROPS = {
             "budget": {"quick": 30, "thorough": 900},
         }],
         "technique": "deterministic simulation with fault injection: (a) seeded sequential histories against the 'latest prefix set wins' model with injected allocation failures and failing sinks; (b) seeded thread schedules of 2-6 fibers on one OS thread, every mutex and atomic operation a scheduling point (link-time wrapped), ThreadSanitizer driven through its fiber API as in-simulation race monitor, linearizability check of the recorded history, deadlock and step bound; minimised replay including the schedule",
-        "level_text": "(a) Sequential: histories up to 60 of set/get/object creation (from context, from location, from parent)/level/enabled/log over all 40 locations of depth <= 3 with 3 names per level; every get/level/enabled equals the model, a message appears on the sink of its level iff level >= current level, exactly once, with the documented text (user formatter outermost, then the location prefix, then the level formatter), on no other sink; allocation failures may interrupt an operation (afterwards every location holds the old or the new level), sinks may refuse output. (b) Concurrent: see the C19-conc engine. Sampling, not proof; weak-memory effects are out of reach (sequentially consistent interleavings only).",
+        "level_text": "(a) Sequential: histories up to 60 of set/get/object creation (from context, from location, from parent)/level/enabled/log over all 40 locations of depth <= 3 with 3 names per level; every get/level/enabled equals the model, a message appears on the sink of its level iff level >= current level, exactly once, with the documented text (user formatter outermost, then the location prefix, then the level stream's own formatter if it has one), on no other sink; allocation failures may interrupt an operation (afterwards every location holds the old or the new level), sinks may refuse output. (b) Concurrent: see the C19-conc engine. Sampling, not proof; weak-memory effects are out of reach (sequentially consistent interleavings only).",
         "level_note": "Stubs: OS thread scheduler (fiber scheduler), blocking behaviour of the context mutex (simulated owner table; the real pthread_mutex_lock is still called when free so TSan sees acquire/release), sinks (sim::StreamBuf), global operator new. Trusted: the reference model, the linearizability checker, ThreadSanitizer's happens-before tracking under its fiber API, ASan/UBSan, the harness.",
         "rule": "One run = one generated history (sequential engine: 1-60 operations, half of the runs with injected faults; concurrent engine: 2-6 fibers x 1-6 operations under one seeded schedule). Non-trivial = at least 3 effective operations. Distinct = distinct plans (operations + schedule).",
         "real": REAL_COMMON + ["all of fcppt.log (context, object, level streams, formatters), tree::object/pre_order/to_root underneath", "ThreadSanitizer runtime (concurrent engine)"],
-        "stub": ["sinks behind std::ostream (sim::StreamBuf, refusing output on order)", "global operator new (injected bad_alloc, tagging)", "thread scheduling and mutex blocking (fiber scheduler; concurrent engine)"],
+        "stub": ["sinks behind std::ostream (sim::StreamBuf, refusing output on order)", "global operator new (injected bad_alloc, tagging)", "thread scheduling, mutex / rwlock blocking, per-thread storage and exception state (fiber scheduler; concurrent engine)"],
         "assumptions": ["log objects are not shared between threads and sinks are written by one thread at a time (the documentation promises no more)",
                         "lock-free object::level()/enabled() reads are judged one at a time against the lock-protected operations (joint linearizability of several lock-free reads is not promised)",
                         "the memory order of the per-node atomics is not checked (sequentially consistent interleavings only)"],
